@@ -31,7 +31,7 @@ PUSHES = {
 }
 EXPECT_MSG = {'4t1': 't1', '4{"j":2}': {'j': 2}, 'bAAEC': b'\x00\x01\x02', '4solo': 'solo', '4after-ping': 'after-ping'}
 SENDS = ['s-text', b'\xfe\xff', {'k': [1, 'v']}, 's-last']
-HANDLER_SENDS = ['hc-1', b'\x01hc', {'hc': 3}]
+HANDLER_SENDS = ['hc-1', bytearray(b'\x01hc'), {'hc': 3}]       # a bytearray is binary data too
 IV, TO = 1.0, 1.0
 BEAT_LAG = 0.375       # delay of each PONG on its way to the server in the steady-heartbeat scenarios
 
